@@ -4,8 +4,9 @@
   `Sk` is the *skeleton* of what `LocalNetworkXML::write` streams: the sequence of markup tokens with the loops
   (`star`), the conditionals (`alt`, `opt = alt · eps`) and the places where an operand is streamed (`text`, attribute
   values).  The skeleton of the source tree is REGENERATED into `Gen/XmlSkeleton.lean` (`writeSk`) by
-  tools/gen/c12_sites.py, which executes the writer functions symbolically on the two streams (`out`, the visitor's
-  secondary `ostringstream`) and tokenises the literals.
+  tools/gen/c12_skeleton.py, which executes the writer functions symbolically on the two streams (`out`, the visitor's
+  secondary `ostringstream`) and tokenises the literals (tools/gen/c12_sites.py is the older regex extraction of the
+  streaming sites, `Gen/XmlSites.lean`, whose `Kind` the skeleton reuses).
 
   `Gen sk toks` : the token sequences the writer can produce — any number of loop iterations, either branch of every
   conditional, any string at a text operand (passed through `str2xml` iff the site is), any run of `numChar` bytes at a
@@ -325,7 +326,7 @@ def rshape : Tok → Option RTok
   | .comment _ => some .comment
   | .chars b => if isBlank b then none else some (.chars false)
 
-/-- the shape of a document: what `accepts` is run on (round 4; `C12_matcher_sound`) -/
+/-- the shape of a document: what `accepts` is run on (round 4; `C12_matcher_sound_complete`, Props/C12.lean) -/
 def shape (toks : List Tok) : List RTok := toks.filterMap rshape
 
 end Gama.XmlDoc
